@@ -527,6 +527,21 @@ def run_case(ctx, i, rng):
     if r:
         ctx.violation(r[0], "%s | %s" % (r[1], st))
         return
+    forced_lib = None
+    if i % 3 == 1:
+        # a child whose definition currently belongs to NO library (created stand-alone, or being moved between libraries):
+        # cloning the library / definition / instance must still keep that definition's reference set up to date
+        free_def = sdn.Definition("free_def")
+        free_def.create_port("fp", pins=rng.choice([1, 2]), direction=sdn.IN)
+        hosts = [d for l in n.libraries for d in l.definitions if d.children or d.cables]
+        if hosts:
+            h = rng.choice(hosts)
+            try:
+                h.create_child("uses_free_def", reference=free_def)
+                forced_lib = h.library
+                ctx.count("children_of_libraryless_definitions")
+            except ValueError:
+                pass
     full = ctx.tier == "thorough" and i % 4 == 0
     defs = [d for l in n.libraries for d in l.definitions]
 
@@ -534,6 +549,8 @@ def run_case(ctx, i, rng):
         lst = list(lst)
         return lst if (full or len(lst) <= k) else rng.sample(lst, k)
     roots = [("library", l) for l in pick(n.libraries, 2)]
+    if forced_lib is not None and not any(x is forced_lib for _, x in roots):
+        roots.append(("library", forced_lib))
     roots += [("definition", d) for d in pick(defs, 4)]
     roots += [("instance", x) for x in pick([c for d in defs for c in d.children] + [n.top_instance], 4)]
     roots += [("port", p) for p in pick([p for d in defs for p in d.ports], 3)]
